@@ -25,6 +25,7 @@ StepOKX(e) ==
      /\ Len(e.chain) = HH(st2) /\ \A i \in 1..Len(e.chain) : HH(e.chain[i]) = i /\ e.chain[i] \in A(st2)
      /\ st2 \in A(hd2)
      /\ \A b \in kn2 : b \in A(st2) \/ st2 \in A(b)
+     /\ \A b \in (kn2 \cap known) \ {G} : conf[b] \subseteq c2[b]   \* in no sequential order does a stored confirm disappear
 NewIds(e) == {e.new[i].id : i \in 1..Len(e.new)}
 XBlock == /\ Ev("InsertBlock")
           /\ LET b == E.b IN
@@ -47,7 +48,9 @@ XMine == /\ Ev("MineBlock")
                              /\ StepOKX(E))
          /\ AdoptX(E) /\ Extend(E)
 \* state after the background goroutines have finished: only the node's own confirms on stable blocks may have been added
-XFinal == Ev("Final") /\ Same(E) /\ E.new = <<>> /\ AdoptX(E) /\ Extend(E)
+XFinal == /\ Ev("Final") /\ Same(E) /\ E.new = <<>>
+          /\ \A b \in known \ {G} : conf[b] \subseteq ConfOf(E)[b]
+          /\ AdoptX(E) /\ Extend(E)
 XEmit == /\ Ev("Emit")
          /\ E.valid /\ E.b # -1 /\ E.height_ok
          /\ UNCHANGED <<parent, miner, nd, self, known, conf, stable, head>>
